@@ -579,15 +579,18 @@ func (st *tunnelServerStream) readMsgLocked() (data []byte, ok bool, err error) 
 		verifYield("server.read.beforeDequeue")
 		in, ok := st.receiver.dequeue()
 		if !ok {
-			if halfClosedErr := st.halfClosed.Load(); halfClosedErr != nil {
-				return nil, true, halfClosedErr.error
-			}
-			// The receiver was cancelled before the stream was half-closed,
-			// which happens when the stream's context is done. Never return
-			// a nil error here: the caller would treat it as a message.
+			// If the stream's context is done, the receiver was cancelled
+			// and has discarded whatever messages were still queued. That
+			// must be reported as the context's error, not as a normal end
+			// of the request stream (even if the client had half-closed).
 			if err := st.ctx.Err(); err != nil {
 				return nil, true, err
 			}
+			if halfClosedErr := st.halfClosed.Load(); halfClosedErr != nil {
+				return nil, true, halfClosedErr.error
+			}
+			// Never return a nil error here: the caller would treat it as
+			// a message.
 			return nil, true, context.Canceled
 		}
 
